@@ -18,6 +18,12 @@
 (*            rows of b counting duplicates, other = rows of no big batch  *)
 (*  Check    {rows:[{mod, qn, key, cnt}...], integrity}  table contents    *)
 (*            read through an independent connection                       *)
+(*  QueryStart {c}   FREE-RUNNING processes only: connection c is about to *)
+(*            ask (the next Filter / Modules / Check of c is the answer).  *)
+(*            The answer reflects the table at SOME moment between the two *)
+(*            events: batches whose add() returned ok in between may or    *)
+(*            may not be visible.  Scheduled replays have no QueryStart    *)
+(*            (nothing else runs during a query).                          *)
 (*                                                                         *)
 (* The spec does not know when a commit took effect.  A batch whose add()  *)
 (* has not returned ok is UNDECIDED: every observation must be explained   *)
@@ -37,11 +43,12 @@ VARIABLES i, l,
           committed,  \* batches whose add() returned ok
           undecided,  \* batch id -> "flying" | "ended"      (started, not known to be committed)
           known,      \* batch id -> "in" | "out"            (what observations have forced)
+          qstart,     \* connection -> the committed set when its running query started (free-running traces)
           viol
-vars == <<i, l, big, rowsOf, committed, undecided, known, viol>>
+vars == <<i, l, big, rowsOf, committed, undecided, known, qstart, viol>>
 
 Empty == [x \in {} |-> 0]
-Init == i = 1 /\ l = 0 /\ big = {} /\ rowsOf = Empty /\ committed = {} /\ undecided = Empty /\ known = Empty /\ viol = {}
+Init == i = 1 /\ l = 0 /\ big = {} /\ rowsOf = Empty /\ committed = {} /\ undecided = Empty /\ known = Empty /\ qstart = Empty /\ viol = {}
 
 Row(r) == [mod |-> r.mod, qn |-> r.qn, key |-> r.key]
 NoPrefix == <<0>>
@@ -53,6 +60,10 @@ Admissible == {X \in SUBSET DOMAIN undecided :
                  /\ \A b \in DOMAIN known : (known[b] = "out" /\ undecided[b] = "ended") => b \notin X}
 
 Visible(X) == committed \cup X
+\* what connection c may see: everything committed before its query started, plus any of the batches committed since
+Base(c)  == IF c \in DOMAIN qstart THEN qstart[c] ELSE committed
+Maybe(c) == committed \ Base(c)
+VisibleTo(c, X, Y) == Base(c) \cup X \cup Y
 RowSet(B) == UNION {{Row(rowsOf[b][j]) : j \in 1..Len(rowsOf[b])} : b \in B}
 Count(B, r) == LET per(b) == Cardinality({j \in 1..Len(rowsOf[b]) : Row(rowsOf[b][j]) = r})
                    RECURSIVE Sum(_)
@@ -120,8 +131,8 @@ Step ==
        [] e.ev = "Filter" ->
             LET res == {Row(e.res[j]) : j \in 1..Len(e.res)}
                 distinct == Cardinality(res) = Len(e.res)
-                Expl == {X \in Admissible :
-                           LET M == {r \in RowSet(Visible(X)) : r.mod = e.m /\ PrefixOK(e.p, r.qn)}
+                Expl == {X \in Admissible : \E Y \in SUBSET Maybe(e.c) :
+                           LET M == {r \in RowSet(VisibleTo(e.c, X, Y)) : r.mod = e.m /\ PrefixOK(e.p, r.qn)}
                            IN  /\ res \subseteq M
                                /\ Cardinality(res) = IF Cardinality(M) <= e.n THEN Cardinality(M) ELSE e.n}
             IN /\ IF ~distinct THEN /\ viol' = viol \cup {"FilterDistinct"} /\ UNCHANGED known
@@ -129,35 +140,43 @@ Step ==
                /\ UNCHANGED <<rowsOf, committed, undecided, big>>
        [] e.ev = "Modules" ->
             LET res == {e.res[j] : j \in 1..Len(e.res)}
-                Expl == {X \in Admissible : res = {r.mod : r \in RowSet(Visible(X))}}
+                Expl == {X \in Admissible : \E Y \in SUBSET Maybe(e.c) : res = {r.mod : r \in RowSet(VisibleTo(e.c, X, Y))}}
             IN /\ IF Cardinality(res) # Len(e.res) THEN /\ viol' = viol \cup {"ModulesDistinct"} /\ UNCHANGED known
                   ELSE Observe(Expl, "ModulesExact")
                /\ UNCHANGED <<rowsOf, committed, undecided, big>>
        [] e.ev = "Check" ->
             LET got == {Row(e.rows[j]) : j \in 1..Len(e.rows)}
                 cnt(r) == (CHOOSE j \in 1..Len(e.rows) : Row(e.rows[j]) = r)
-                Expl == {X \in Admissible :
-                           /\ got = RowSet(Visible(X))
-                           /\ \A j \in 1..Len(e.rows) : e.rows[j].cnt = Count(Visible(X), Row(e.rows[j]))}
+                Expl == {X \in Admissible : \E Y \in SUBSET Maybe("chk") :
+                           /\ got = RowSet(VisibleTo("chk", X, Y))
+                           /\ \A j \in 1..Len(e.rows) : e.rows[j].cnt = Count(VisibleTo("chk", X, Y), Row(e.rows[j]))}
             IN /\ IF e.integrity # "ok" THEN /\ viol' = viol \cup {"Integrity"} /\ UNCHANGED known
                   ELSE Observe(Expl, "Atomic")
                /\ UNCHANGED <<rowsOf, committed, undecided, big>>
        [] e.ev = "QueryFailed" ->
             \* filter / list_modules raised.  While some add() is still in flight a reader may be told the
             \* database is busy; with no writer in flight a query must answer.
-            /\ viol' = viol \cup (IF \E b \in DOMAIN undecided : undecided[b] = "flying" THEN {} ELSE {"QueryFails"})
+            \* (free-running: a writer that finished while the query was running counts as in flight)
+            /\ viol' = viol \cup (IF (\E b \in DOMAIN undecided : undecided[b] = "flying") \/ (e.c \in DOMAIN qstart /\ Maybe(e.c) # {})
+                                  THEN {} ELSE {"QueryFails"})
             /\ UNCHANGED <<rowsOf, committed, undecided, known, big>>
        [] OTHER -> UNCHANGED <<rowsOf, committed, undecided, known, viol, big>>
+  /\ qstart' = LET e == Ev IN
+                IF e.ev = "QueryStart" THEN (e.c :> committed) @@ qstart
+                ELSE IF e.ev \in {"Filter", "Modules", "QueryFailed"} /\ e.c \in DOMAIN qstart
+                THEN [c \in DOMAIN qstart \ {e.c} |-> qstart[c]]
+                ELSE IF e.ev = "Check" /\ "chk" \in DOMAIN qstart THEN [c \in DOMAIN qstart \ {"chk"} |-> qstart[c]]
+                ELSE qstart
   /\ l' = l + 1 /\ UNCHANGED i
 
 EndTrace ==
   /\ i <= N /\ l = Len(Recs[i].events)
   /\ viol # {} => PrintT(<<"V", ToJson([tid |-> Recs[i].tid, viol |-> viol, drift |-> FALSE])>>)
-  /\ i' = i + 1 /\ l' = 0 /\ big' = {} /\ rowsOf' = Empty /\ committed' = {} /\ undecided' = Empty /\ known' = Empty /\ viol' = {}
+  /\ i' = i + 1 /\ l' = 0 /\ big' = {} /\ rowsOf' = Empty /\ committed' = {} /\ undecided' = Empty /\ known' = Empty /\ qstart' = Empty /\ viol' = {}
 
 Done == /\ i = N + 1
         /\ PrintT(<<"DONE", ToJson([n |-> N])>>)
-        /\ i' = N + 2 /\ UNCHANGED <<l, big, rowsOf, committed, undecided, known, viol>>
+        /\ i' = N + 2 /\ UNCHANGED <<l, big, rowsOf, committed, undecided, known, qstart, viol>>
 
 Next == Step \/ EndTrace \/ Done
 Spec == Init /\ [][Next]_vars
